@@ -52,7 +52,7 @@ def make_handler(world, kind):
 
 
 class World:
-    def __init__(self, pools, handler='strict', identifier='supervisor'):
+    def __init__(self, pools, handler='strict', identifier='supervisor', names='unique'):
         """pools: [(name, buffer_size, n_listeners, [EventTypes member names])]"""
         import supervisor.process as sp
         from supervisor import events, states
@@ -142,7 +142,9 @@ class World:
             for j in range(nl):
                 o = FakeOS()
                 o.coords = '%d.%d' % (len(self.pools), j)
-                c = Cfg(o, '%s_l%d' % (name, j), '/bin/cat', autostart=False, autorestart=False,
+                # names='shared': the same process names in every pool (two [eventlistener:x] sections may
+                # use the same process_name); the Subprocess objects are of course distinct
+                c = Cfg(o, ('l%d' % j) if names == 'shared' else '%s_l%d' % (name, j), '/bin/cat', autostart=False, autorestart=False,
                         startsecs=0, exitcodes=(0,))
                 pcs.append(c)
             g = DummyPGroupConfig(self.pool_options, name, pconfigs=pcs)
